@@ -51,3 +51,51 @@ func VpH_C05() {
 	}
 	vp.Cover("end")
 }
+
+// vpGenCountNoisy / vpGenCountQuiet: how often GenNoisy resp. GenNotNoisy emits exactly the encoding t (same
+// interception as vpGenCount).
+func vpGenCountNoisy(b *board.Board, t move.Move) int {
+	ms := move.NewStore()
+	ms.Push()
+	GenNoisy(ms, b)
+	n := 0
+	for _, w := range ms.Frame() {
+		if w.Move == t {
+			n++
+		}
+	}
+	return n
+}
+
+func vpGenCountQuiet(b *board.Board, t move.Move) int {
+	ms := move.NewStore()
+	ms.Push()
+	GenNotNoisy(ms, b)
+	n := 0
+	for _, w := range ms.Frame() {
+		if w.Move == t {
+			n++
+		}
+	}
+	return n
+}
+
+// VpH_C16_split: the generator halves split the pseudo-legal moves the way the picker's stage contracts say:
+// everything GenNoisy emits is a capture (incl. en passant) or a promotion, nothing GenNotNoisy emits is.
+func VpH_C16_split() {
+	stm := Color(vp.Param("stm"))
+	from := vp.Param("from")
+	b := board.VpSymBoard(stm)
+	vp.Assume(board.VpValid(b))
+	to := int(vp.Bits("to", 6))
+	promo := Piece(vp.Bits("promo", 3))
+	t := board.VpMove(from, to, promo)
+	noisy := board.VpNoisy(b, t)
+	if vpGenCountNoisy(b, t) >= 1 {
+		vp.Assert(noisy, "noisy-half-emits-only-captures-and-promotions")
+	}
+	if vpGenCountQuiet(b, t) >= 1 {
+		vp.Assert(!noisy, "quiet-half-emits-no-capture-or-promotion")
+	}
+	vp.Cover("end")
+}
